@@ -252,6 +252,11 @@ func oracleC09(r *Result, run *sessionRun, pipelined bool) {
 			if saFailed {
 				violation(r, "a response was sent on a connection whose session authentication failed", run, "", e.raw)
 			}
+			if k := atoi(e.f[1]); k < len(run.arrs) && run.arrs[k].kind == 'R' {
+				if q := run.arrs[k].req; q.cred != 0 && (!run.cfg.ra || !strings.HasPrefix(q.auth, "ok:")) {
+					violation(r, "a request whose credentials were rejected or could not be checked was answered (the connection must be closed without a response)", run, "close, no response", e.raw)
+				}
+			}
 		case "call":
 			if saFailed {
 				violation(r, "a handler ran on a connection whose session authentication failed", run, "", e.raw)
